@@ -71,7 +71,7 @@ mutual
             if p.segments.isEmpty then (w, .st { vars := env.defaults, data := input.getD .none }, [], r)
             else
               let pk := p.encode tbl
-              let w0 := w.storeMeta rawQuery (s "evaluating parent")
+              let w0 := if useCache then w.storeMeta rawQuery (s "evaluating parent") else w
               let (w1, o) := evalQO env n w0 p pk .none input useCache
               (w1, o, pk, r)
         let (o, parentQuery, r) := pre
@@ -81,7 +81,7 @@ mutual
         | .unmodelled => (w1, .unmodelled)
         | .st st =>
           if st.isError then
-            let w2 := w1.storeMeta rawQuery (s "error")
+            let w2 := if useCache then w1.storeMeta rawQuery (s "error") else w1
             (w2, .st { st with data := .none, query := key })
           else
             match r with
@@ -89,7 +89,7 @@ mutual
             | some (.transform _ [] (some f)) =>
               -- file name step
               let st2 := { st with filename := some f, extension := some (extensionOf f), query := key }
-              let w1 := w1.storeMeta rawQuery (s "evaluation")
+              let w1 := if useCache then w1.storeMeta rawQuery (s "evaluation") else w1
               let w2 := if !useCache then w1
                         else if st2.caching && !st2.volatile then w1.store st2 else w1.remove key
               (w2, .st st2)
@@ -111,10 +111,10 @@ mutual
     | 0, w, _, _, _, _, _, _ => (w, .unmodelled)
     | n + 1, w, st, act, rawQuery, parentQuery, extra, useCache =>
       let tbl := Gen.escapeTable
-      let w := w.storeMeta rawQuery (s "evaluation")
+      let w := if useCache then w.storeMeta rawQuery (s "evaluation") else w
       let cmds := [act.toList tbl]
       let failAt (w : OW) (attrs : List (Str × Str)) (vol : Bool) (pos : Option Nat) (q : Option Str) : OW × Outcome :=
-        (w.storeMeta rawQuery (s "error"), .st { st with data := .none, isError := true, status := s "error", commands := cmds, attrs := attrs, volatile := st.volatile || vol, errPos := pos, errQuery := q })
+        ((if useCache then w.storeMeta rawQuery (s "error") else w), .st { st with data := .none, isError := true, status := s "error", commands := cmds, attrs := attrs, volatile := st.volatile || vol, errPos := pos, errQuery := q })
       let failState (w : OW) (attrs : List (Str × Str)) (vol : Bool) : OW × Outcome :=
         failAt w attrs vol (some act.pos) (some rawQuery)
       match namespacesOf st.vars with
@@ -142,7 +142,7 @@ mutual
               let w2 := if isLibraryCommand sig.name then w1
                         else w1.log (callText sig.ns sig.name (if sig.first then .none else st.data) args)
               let done (w : OW) (v : Val) (vars : Vars) (caching : Bool) : OW × Outcome :=
-                (w.storeMeta rawQuery statusReady, .st { st with data := v, vars := st.vars.update vars, status := statusReady, commands := cmds, attrs := attrs, caching := caching && st.caching, volatile := st.volatile || extraVol || cmdVolatile sig.attrs })
+                ((if useCache then w.storeMeta rawQuery statusReady else w), .st { st with data := v, vars := st.vars.update vars, status := statusReady, commands := cmds, attrs := attrs, caching := caching && st.caching, volatile := st.volatile || extraVol || cmdVolatile sig.attrs })
               match cmdSem sig.ns sig.name st.data st.vars args with
               | .unmodelled => (w2, .unmodelled)
               | .raises => failState w2 attrs (extraVol || cmdVolatile sig.attrs)
